@@ -344,9 +344,8 @@ def run(res, tier):
             bound = None
             for l in loops:
                 cond = l.role('cond') if hasattr(l, 'role') else None
-                if cond is not None and cond['k'] == 'BinaryOperator' and cond.get('op') == '<':
-                    b = A.strip_casts(cond['ch'][1])
-                    if b['k'] == 'DeclRefExpr' and 'd' in b and any(p_['d'] == b['d'] for p_ in f.params):
+                for (_l, op_, b) in (A.rel_forms(cond, True) if cond is not None else ()):
+                    if op_ == '<' and b['k'] == 'DeclRefExpr' and 'd' in b and any(p_['d'] == b['d'] for p_ in f.params):
                         bound = b
             n_mc += 1
             ok = (bound is not None and inc.get('d') == bound['d']) or (bound is None and inc.get('v') == 1)
